@@ -159,6 +159,19 @@ async fn read_all(store: &SqliteStore) -> Result<(Vec<Row>, BTreeMap<String, (St
         .await
 }
 
+/// Waits until no connection of the pool has work in flight: a COMMIT / ROLLBACK whose future was
+/// dropped is still executed by the connection's worker thread, and the connection comes back to
+/// the pool only after that. Holding all connections at once means every one of them is through.
+async fn quiesce(store: &SqliteStore) -> Result<(), SqliteError> {
+    let max = store.pool().options().get_max_connections();
+    let mut held = Vec::new();
+    for _ in 0..max {
+        held.push(store.pool().acquire().await?);
+    }
+    drop(held);
+    Ok(())
+}
+
 fn rows_json(rows: &[Row]) -> Value {
     Value::Array(rows.iter().map(|(w, t, j, k)| json!({"w": w, "t": t, "j": j, "k": k})).collect())
 }
@@ -206,11 +219,17 @@ enum Ending {
     CancelHolding,
     /// the task is aborted while it is (probably still) inside `begin()`
     CancelInBegin,
+    /// begin, writes, the task is aborted while `commit(permit)` is (probably still) in flight
+    CancelInCommit,
+    /// begin, writes, the task is aborted while `rollback(permit)` is in flight
+    CancelInRollback,
+    /// begin, writes, the task is aborted while one more write is in flight
+    CancelInWrite,
 }
 
 const WRITER_PANIC: &str = "writer panics inside its transaction";
 
-const ENDINGS: [Ending; 11] = [
+const ENDINGS: [Ending; 16] = [
     Ending::CommitMacro,
     Ending::Commit,
     Ending::Rollback,
@@ -223,6 +242,11 @@ const ENDINGS: [Ending; 11] = [
     Ending::CancelInBegin,
     Ending::CancelInBegin,
     Ending::CancelInBegin,
+    Ending::CancelInCommit,
+    Ending::CancelInCommit,
+    Ending::CancelInCommit,
+    Ending::CancelInRollback,
+    Ending::CancelInWrite,
 ];
 
 #[derive(Clone, Debug)]
@@ -233,18 +257,25 @@ struct Plan {
     yields: Vec<u8>,
 }
 
-/// Emits `TaskGone` when dropped armed: declared *after* the future it guards, hence dropped
-/// *before* it when the task is cancelled, so the event precedes the release of whatever the
-/// cancelled future held.
+/// Emits an event when dropped armed: declared *after* the future it guards, hence dropped
+/// *before* it when the task is cancelled, so the event precedes the effects of dropping the
+/// cancelled future (release of a bare semaphore permit, drop of the sqlx transaction and of the
+/// `TransactionPermit`).
 struct GoneGuard {
-    w: String,
+    event: Value,
     armed: bool,
+}
+
+impl GoneGuard {
+    fn new(event: Value, armed: bool) -> GoneGuard {
+        GoneGuard { event, armed }
+    }
 }
 
 impl Drop for GoneGuard {
     fn drop(&mut self) {
         if self.armed {
-            emit(json!({"ev": "TaskGone", "w": self.w}));
+            emit(self.event.clone());
         }
     }
 }
@@ -312,7 +343,7 @@ async fn transaction_task(
     let permit = {
         let begin = store.begin();
         let mut begin = std::pin::pin!(begin);
-        let mut guard = GoneGuard { w: w.clone(), armed: plan.ending == Ending::CancelInBegin };
+        let mut guard = GoneGuard::new(json!({"ev": "TaskGone", "w": w}), plan.ending == Ending::CancelInBegin);
         let mut parked = Some(parked);
         if plan.ending == Ending::CancelInBegin {
             let _ = parked.take().unwrap().send(());
@@ -364,6 +395,49 @@ async fn transaction_task(
             std::future::pending::<()>().await;
             Ok(())
         }
+        Ending::CancelInCommit | Ending::CancelInRollback => {
+            // the supervisor aborts this task while the call is (probably) still in flight; what
+            // a COMMIT cut in the middle did - went through or not - shows in the database only
+            let commit = plan.ending == Ending::CancelInCommit;
+            let call = async {
+                if commit { store.commit(permit).await } else { store.rollback(permit).await }
+            };
+            let mut call = std::pin::pin!(call);
+            let cut = if commit { "CommitCut" } else { "RollbackCut" };
+            let mut guard = GoneGuard::new(json!({"ev": cut, "w": w, "t": t}), true);
+            if let Some(p) = parked {
+                let _ = p.send(());
+            }
+            let r = call.as_mut().await;
+            guard.armed = false;
+            r.map_err(|e| format!("commit / rollback failed: {e}"))?;
+            std::future::pending::<()>().await;
+            Ok(())
+        }
+        Ending::CancelInWrite => {
+            let j = plan.keys.len() as i64;
+            let write = do_write(&store, &w, t, j, "k1");
+            let mut write = std::pin::pin!(write);
+            // cut in the middle, the transaction ends like a dropped permit (whether the statement
+            // was executed does not matter: it is rolled back)
+            let mut guard = GoneGuard::new(json!({"ev": "PermitDrop", "w": w, "t": t, "why": "cancel-in-write"}), true);
+            if let Some(p) = parked {
+                let _ = p.send(());
+            }
+            let r = write.as_mut().await;
+            guard.armed = false;
+            match r {
+                Ok(seen) => emit(json!({"ev": "Write", "w": w, "t": t, "j": j, "k": "k1", "seen": seen})),
+                Err(e) => {
+                    emit(json!({"ev": "PermitDrop", "w": w, "t": t, "why": "write-error"}));
+                    return Err(format!("write failed: {e}"));
+                }
+            }
+            emit(json!({"ev": "PermitDrop", "w": w, "t": t, "why": "cancel"}));
+            let _permit = permit;
+            std::future::pending::<()>().await;
+            Ok(())
+        }
         Ending::CommitMacro | Ending::ErrorMacro => unreachable!(),
     }
 }
@@ -375,7 +449,10 @@ async fn writer(store: SqliteStore, w: String, plans: Vec<Plan>, abort_after: Ve
         let (parked_tx, parked_rx) = oneshot::channel();
         let ending = plan.ending;
         let handle = tokio::spawn(transaction_task(store.clone(), w.clone(), t as i64, plan, parked_tx));
-        if matches!(ending, Ending::CancelHolding | Ending::CancelInBegin) {
+        if matches!(
+            ending,
+            Ending::CancelHolding | Ending::CancelInBegin | Ending::CancelInCommit | Ending::CancelInRollback | Ending::CancelInWrite
+        ) {
             // wait until the task says it is where it wants to be cancelled (or is gone)
             let _ = parked_rx.await;
             yields(abort_after.get(t).copied().unwrap_or(0)).await;
@@ -466,7 +543,11 @@ fn record_run(rng: &mut Rng, run: usize, kind: &'static str) -> RunResult {
         let mut committed = 0;
         let mut select_error = None;
         if !hung {
-            match read_all(&db.store).await {
+            let read = async {
+                quiesce(&db.store).await?;
+                read_all(&db.store).await
+            };
+            match read.await {
                 Ok((log, kv)) => {
                     committed = log.len();
                     emit(json!({"ev": "Final", "log": rows_json(&log), "kv": kv_json(&kv)}));
@@ -531,7 +612,7 @@ fn record(args: &Args) {
     let mut trace = TraceWriter::create(args.out.as_ref().expect("--out"));
     let mut out = Outcome::new(
         args,
-        "seeded random runs of 2-5 concurrent writers x 1-3 transactions (0-3 writes, 8 ways to end, random yields) on a \
+        "seeded random runs of 2-5 concurrent writers x 1-4 transactions (0-3 writes, 11 ways to end, random yields) on a \
          multi-thread runtime against a real SQLite store (alternating in-memory / file-backed pool); evaluation = one run; \
          non-trivial = a run with at least one committed and one aborted transaction; distinct by event sequence",
     );
